@@ -934,7 +934,7 @@ class ZipIter:
         self.seqs = seqs
 
     def length(self):
-        ls = [s.length if isinstance(s, SSeq) else z3.IntVal(len(s)) for s in self.seqs]
+        ls = [s.length if isinstance(s, SSeq) else (s.length() if getattr(s, "pyvc_iter", False) else z3.IntVal(len(s))) for s in self.seqs]
         out = ls[0]
         for l in ls[1:]:
             out = z3.If(l < out, l, out)
@@ -949,7 +949,7 @@ class ZipIter:
         return list(zip(*self.seqs))
 
     def item(self, k, single=False):
-        vals = tuple(s.at(k) if isinstance(s, SSeq) else None for s in self.seqs)
+        vals = tuple(s.at(k) if isinstance(s, SSeq) else (s.item(k, False) if getattr(s, "pyvc_iter", False) else None) for s in self.seqs)
         if any(v is None for v in vals):
             raise Unsupported("zip of a symbolic and a concrete sequence")
         return vals[0] if single else vals
